@@ -635,6 +635,11 @@ fn gen_find(_rng: &mut Rng, _tier: Tier, emit: &mut dyn FnMut(Vec<Tok>)) {
     case(vec![op(0, 5, 8, 0, 0), op(2, page, 0, 0, 0), op(1, 5, 8, 0, 0)]);
     case(vec![op(2, 0, 0, 1, 0)]);
     case(vec![op(7, page, 2, 0, 0)]);
+    // the same through read_volatile_from / write_volatile_to at the very end of the region (elsewhere
+    // Ok(0)), with count 0, and through copy_to::<u32> on a slice shorter than one element
+    case(vec![op(11, 2 * page, 8, 8, 0)]);
+    case(vec![op(12, page, 0, 0, 0)]);
+    case(vec![op(14, page, 3, 4, 1)]);
     // (not page-aligned: works)
     case(vec![op(2, 5, 0, 0, 0)]);
     // F6b: unguarded dereference of the null-based address
